@@ -1380,6 +1380,39 @@ theorem validateParameter_leaves_stream_alone :
     Flow.countL Flow.isUnrecognised (bodyOf "ValidateParameter" c13BodyFlow) = 0 ∧
     Flow.countL isCall (bodyOf "ValidateParameter" c13BodyFlow) = 0 := by decide +kernel
 
+/-- **body_readable_after on the code's own skeleton, concretely.**  Take ANY complete path of the regenerated skeleton of
+validateSecurityRequirement — whichever way its conditions fall, any number of iterations of its loops — any
+callbacks (reading the body or not), and a request with body `data` whose GetBody (if any) rewinds to `data`.  If the
+path can be executed at all (its guard outcomes are those of the states it passes through), then after the return —
+deferred restore included — the next reader gets `data` in full, GetBody rewinds to it, and every callback that ran
+could read all of it.  No hand-written model of the function's control flow is involved: only the meaning of the
+events (`stepR`).  Full strength. -/
+theorem secReq_skeleton_body_readable (data : Bytes) (r : Req) (h : Coherent r data) (auths : List Auth) (t : List Ev)
+    (hp : SegPath (segs (bodyOf "validateSecurityRequirement" c13BodyFlow) []) t) (s' : RSt)
+    (hr : runR t ⟨r, none, false, auths, []⟩ = some s') :
+    Readable (finish s') data ∧ ∀ x ∈ s'.seen, x = data := by
+  rw [sr_segments] at hp; exact srSegs_readable data r h auths t hp s' hr
+
+/-- **body_readable_after on the skeleton of ValidateRequestBody, concretely**: every complete path of the regenerated
+skeleton whose guard outcome is that of a request with body `data` (GetBody, if any, rewinding to `data`) ends with
+a request from which the next reader gets the whole body — the re-encoded bytes if the path installed them, else
+`data` — and whose GetBody rewinds to the same.  Only the meaning of the events (`stepEv`) is hand-written.
+Full strength. -/
+theorem bodyPhase_skeleton_body_readable (data nd : Bytes) (r : Req) (h : Coherent r data) (t : List Ev)
+    (ht : (t, true) ∈ tracesL (bodyOf "ValidateRequestBody" c13BodyFlow)) (hc : consistent t r = true) :
+    Readable (runTrace nd t r) (if t.contains .install then nd else data) := by
+  rw [vrb_trace_set] at ht
+  simp only [List.mem_cons, Prod.mk.injEq, and_true, List.not_mem_nil, or_false] at ht
+  obtain ⟨hb, hg⟩ := h
+  rcases ht with rfl | rfl | rfl | rfl
+  · have e : runTrace nd [.guard true, .read, .restore] r = restore (drain r) data := by
+      simp [runTrace, stepEv, readAll, hb]
+    rw [e]
+    exact ⟨by simp [readAll, restore_body _ _ (drain_getOK _ _ hg)], by simpa using restore_getOK _ _ (drain_getOK _ _ hg)⟩
+  · simp [runTrace, stepEv, Readable, readAll, GetOK]
+  · simp [consistent, hb] at hc
+  · simp [consistent, hb] at hc
+
 end TracePart
 
 end KinModel.C13
